@@ -1,2 +1,80 @@
-(* placeholder: theorems being added *)
-From DC Require Import Model.Base Model.Pattern.
+(* C11 - Pattern search finds exactly the occurrences, on the requested strands.
+   The regular-expression engine is modelled as "leftmost position at which the fixed-size pattern
+   matches" (Model/Pattern.v first_match); the scanning loop, strand dispatch and coordinate
+   mapping are modelled literally.  Character classes come from the regenerated csv tables. *)
+From Coq Require Import ZArith Bool List Ascii String Lia.
+From DC Require Import Model.Base Model.Loc Model.Bio Model.Pattern Generated.GenTables Proofs.PatternProofs.
+Import ListNotations.
+Open Scope Z_scope.
+
+(* the overlap-aware loop returns every matching position (overlapping ones included), in order *)
+Theorem C11_scan_finds_exactly_the_occurrences : forall P s, 0 <= psize P ->
+  find_in_string P s =
+  map (fun i => (i, i + psize P))
+      (filter (fun i => matches_at_head P (skipn (Z.to_nat i) s)) (zrange 0 (zlen s + 1))).
+Proof. exact scan_complete. Qed.
+Print Assumptions C11_scan_finds_exactly_the_occurrences.
+
+Theorem C11_match_is_local : forall P s, 0 <= psize P ->
+  matches_at_head P s = (psize P <=? zlen s) && matches_at_head P (firstn (Z.to_nat (psize P)) s).
+Proof. exact matches_at_head_local. Qed.
+Print Assumptions C11_match_is_local.
+
+(* strand +1: exactly the forward occurrences lying entirely inside the location *)
+Theorem C11_forward_strand : forall P s a b st, 0 <= psize P -> 0 <= a <= b -> b <= zlen s ->
+  find_forced P s (mkLoc a b st) 1 =
+  map (fun i => mkLoc i (i + psize P) 1)
+      (filter (fun i => (i + psize P <=? b) && occurs_fwd P s i) (zrange a (b + 1))).
+Proof. exact find_forced_forward. Qed.
+Print Assumptions C11_forward_strand.
+
+(* strand -1: exactly the spans whose reverse complement matches, reported with strand -1 *)
+Theorem C11_reverse_strand : forall P s a b st, 0 <= psize P -> 0 <= a <= b -> b <= zlen s ->
+  find_forced P s (mkLoc a b st) (-1) =
+  map (fun i => mkLoc i (i + psize P) (-1))
+      (filter (fun i => (a <=? i) && occurs_rev P s i)
+              (map (fun j => b - psize P - j) (zrange 0 (b - a + 1)))).
+Proof. exact find_forced_reverse. Qed.
+Print Assumptions C11_reverse_strand.
+
+(* strand dispatch: +1 forward, -1 reverse (forward if palindromic), 0 both (once if palindromic) *)
+Theorem C11_strand_dispatch : forall P s l,
+  find_matches P s l =
+  if lstrand l =? 1 then find_forced P s l 1
+  else if lstrand l =? -1 then (if is_palindromic P then find_forced P s l 1 else find_forced P s l (-1))
+  else find_forced P s l 1 ++ (if is_palindromic P then [] else find_forced P s l (-1)).
+Proof. exact find_matches_dispatch. Qed.
+Print Assumptions C11_strand_dispatch.
+
+(* palindromic patterns: reverse-strand occurrences are the forward ones, so searching once loses
+   nothing.  (The side condition excludes only the empty pattern past the end of the sequence.) *)
+Theorem C11_palindromes_once : forall p s i,
+  Forall (fun c => In c (map fst nucleotide_to_regexpr)) p ->
+  is_palindromic (PDna p) = true -> 0 <= i ->
+  1 <= psize (PDna p) \/ i <= zlen s ->
+  occurs_rev (PDna p) s i = occurs_fwd (PDna p) s i.
+Proof. exact palindromic_reverse_is_forward. Qed.
+Print Assumptions C11_palindromes_once.
+
+Theorem C11_repeats_are_strand_symmetric : forall n k s i, 0 <= n -> 0 <= k -> 0 <= i ->
+  1 <= psize (PRepeat n k) \/ i <= zlen s ->
+  occurs_rev (PRepeat n k) s i = occurs_fwd (PRepeat n k) s i.
+Proof. exact repeat_reverse_is_forward. Qed.
+Print Assumptions C11_repeats_are_strand_symmetric.
+
+(* the regular-expression class of every pattern letter, restricted to ACGT, is its IUPAC set *)
+Theorem C11_regex_classes_are_iupac : forall c x,
+  In c (map fst nucleotide_to_regexpr) -> letter_matches c x = iupac_matches c x.
+Proof. exact regex_class_is_iupac. Qed.
+Print Assumptions C11_regex_classes_are_iupac.
+
+Example C11_ex_overlapping :
+  find_in_string (PDna (list_ascii_of_string "AAA")) (sq "AAAAA") = [(0, 3); (1, 4); (2, 5)].
+Proof. vm_compute. reflexivity. Qed.
+Example C11_ex_reverse :
+  find_matches (PDna (list_ascii_of_string "CGTCTC")) (sq "AAGAGACGTT") (mkLoc 0 10 0)
+  = [mkLoc 2 8 (-1)].
+Proof. vm_compute. reflexivity. Qed.
+Example C11_ex_palindrome_once :
+  find_matches (PDna (list_ascii_of_string "GAATTC")) (sq "TTGAATTCAA") (mkLoc 0 10 0) = [mkLoc 2 8 1].
+Proof. vm_compute. reflexivity. Qed.
